@@ -150,6 +150,15 @@ def sync_jobs(items, thorough, max_exec=4000):
             if len(sids) > 2:
                 variants += [[t for t in sids if t != s] for s in sids]
             cfgs = [dict(lazy=l, cache=True) for l in (True, False)]
+        # with synchronous simulators the ORDER of the world.start() calls decides who runs
+        # through its steps before whose process has started: all orders (at most 24) when every
+        # simulator is synchronous (one execution each -- this is how the repository's test-suite
+        # runs its scenarios), the reverse order for the mixed variants
+        orders = []
+        if not scen.get("order"):
+            orders = [list(o) for o in itertools.permutations(sids)][1:]
+            if len(orders) > 23:
+                orders = orders[::len(orders) // 23][:23]
         for cfg in cfgs:
             for v in variants:
                 jobs.append(dict(name=name, scen=scen, cfg=dict(cfg, sync=v), budget=0,
@@ -157,6 +166,14 @@ def sync_jobs(items, thorough, max_exec=4000):
                 if thorough and v != "all":
                     jobs.append(dict(name=name, scen=scen, cfg=dict(cfg, sync=v), budget=1,
                                      max_exec=max_exec))
+                if v == "all":
+                    for o in orders:
+                        jobs.append(dict(name=name, scen=scen, cfg=dict(cfg, sync=v, order=o),
+                                         budget=0, max_exec=200))
+                elif orders and (thorough or len(v) == 1):
+                    for o in ([sids[::-1]] if not thorough else orders[:: max(1, len(orders) // 5)]):
+                        jobs.append(dict(name=name, scen=scen, cfg=dict(cfg, sync=v, order=list(o)),
+                                         budget=0, max_exec=max_exec))
     return jobs
 
 
